@@ -354,8 +354,13 @@ func (ssl *SSLAuthenticator) confirmHandshakeCompletion(ctx context.Context, neg
 
 		slog.Info(fmt.Sprintf("🔐 SSL: Status (c: %d, s: %d)", ssl.clientStatus, ssl.serverStatus), "destination", "cedar")
 	} else {
-		// Server: send server status first, then receive client status
+		// Server: send server status first, then receive client status. Like the
+		// client below, the server enters HOLDING here: the status left over from the
+		// tunnelled exchange (RECEIVING after its last TLS write) is not what this
+		// confirmation reports, and sending it made every handshake with a cedar
+		// server fail with "expected both sides in HOLDING".
 		slog.Info("🔐 SSL: Server sending holding status...", "destination", "cedar")
+		ssl.serverStatus = AuthSSLHolding
 		statusMsg := message.NewMessageForStream(ssl.authenticator.stream)
 		if err := statusMsg.PutInt(ctx, ssl.serverStatus); err != nil {
 			return fmt.Errorf("failed to send server status: %w", err)
